@@ -1,6 +1,7 @@
 INIT Init
 NEXT Next
 CONSTANT Mode = "gen"
+CONSTANT Depth = 2
 CONSTANT LenW = 4
 CONSTANT HashW = 32
 CONSTANT G1W = 48
